@@ -291,6 +291,52 @@ impl Check for C18 {
                 }
             }
         });
+        // (3c) surface-to-surface blends: every (source level, destination level) pair with channels equal
+        // to alpha, and a darker variant, x alphas x blend_surface_with_alpha / blend_surface(SrcOver)
+        run.bound("surface blends", "256 x 256 (source, destination) levels (c = a; c = a / 2) x alpha {1, 0.5, 0.996} for blend_surface_with_alpha, and blend_surface with SrcOver / Multiply / Screen, on 256x1 surfaces".to_string());
+        run.par(256, |sa, l| {
+            let sa = sa as u32;
+            for variant in 0..2 {
+                let lvl = |a: u32| if variant == 0 { (a << 24) | (a << 16) | (a << 8) | a } else { (a << 24) | ((a / 2) << 16) | (a << 8) | (a / 3) };
+                let srcpx: Vec<u32> = vec![lvl(sa); 256];
+                let dstpx: Vec<u32> = (0..256u32).map(lvl).collect();
+                for op in 0..6 {
+                    let r = guard(|| {
+                        let src = DrawTarget::from_vec(256, 1, srcpx.clone());
+                        let mut dst = DrawTarget::from_vec(256, 1, dstpx.clone());
+                        let rect = IntRect::new(IntPoint::new(0, 0), IntPoint::new(256, 1));
+                        match op {
+                            0 => dst.blend_surface_with_alpha(&src, rect, IntPoint::new(0, 0), 1.0),
+                            1 => dst.blend_surface_with_alpha(&src, rect, IntPoint::new(0, 0), 0.5),
+                            2 => dst.blend_surface_with_alpha(&src, rect, IntPoint::new(0, 0), 0.996),
+                            3 => dst.blend_surface(&src, rect, IntPoint::new(0, 0), BlendMode::SrcOver),
+                            4 => dst.blend_surface(&src, rect, IntPoint::new(0, 0), BlendMode::Multiply),
+                            _ => dst.blend_surface(&src, rect, IntPoint::new(0, 0), BlendMode::Screen),
+                        }
+                        dst.into_vec()
+                    });
+                    l.states += 1;
+                    l.transitions += 256;
+                    l.traces += 1;
+                    l.evals += 1;
+                    let case = format!("surfblend sa={} variant={} op={}", sa, variant, op);
+                    match r {
+                        Ok(px) => {
+                            l.nontrivial += 1;
+                            l.outcome(hash64(&px));
+                            if let Some(i) = px.iter().position(|p| { let a = p >> 24; ((p >> 16) & 0xff) > a || ((p >> 8) & 0xff) > a || (p & 0xff) > a }) {
+                                run.report(9500 + sa as usize, Violation::new("blend_surface/channel-exceeds-alpha", case, format!("source {:#010x} over destination {:#010x} gives {:#010x}", srcpx[i], dstpx[i], px[i])));
+                            }
+                        }
+                        Err(p) => {
+                            if !crate::checks::common::is_dependency_panic(&p) {
+                                run.report(9500 + sa as usize, Violation::new("blend_surface/panic", case, p));
+                            }
+                        }
+                    }
+                }
+            }
+        });
         // (4) conversions
         run.bound("conversions", "from_unpremultiplied_argb and From<Color> over 17^4 channel tuples".to_string());
         let ch: Vec<u8> = (0..17).map(|i| (i * 16).min(255) as u8).collect();
@@ -323,6 +369,24 @@ impl Check for C18 {
     }
 
     fn replay(&self, case: &str) -> Result<Option<Violation>, String> {
+        if case.starts_with("surfblend ") {
+            let m = kv(case);
+            let (sa, variant, op) = (kv_i(&m, "sa")? as u32, kv_i(&m, "variant")?, kv_i(&m, "op")?);
+            let lvl = |a: u32| if variant == 0 { (a << 24) | (a << 16) | (a << 8) | a } else { (a << 24) | ((a / 2) << 16) | (a << 8) | (a / 3) };
+            let src = DrawTarget::from_vec(256, 1, vec![lvl(sa); 256]);
+            let mut dst = DrawTarget::from_vec(256, 1, (0..256u32).map(lvl).collect());
+            let rect = IntRect::new(IntPoint::new(0, 0), IntPoint::new(256, 1));
+            match op {
+                0 => dst.blend_surface_with_alpha(&src, rect, IntPoint::new(0, 0), 1.0),
+                1 => dst.blend_surface_with_alpha(&src, rect, IntPoint::new(0, 0), 0.5),
+                2 => dst.blend_surface_with_alpha(&src, rect, IntPoint::new(0, 0), 0.996),
+                3 => dst.blend_surface(&src, rect, IntPoint::new(0, 0), BlendMode::SrcOver),
+                4 => dst.blend_surface(&src, rect, IntPoint::new(0, 0), BlendMode::Multiply),
+                _ => dst.blend_surface(&src, rect, IntPoint::new(0, 0), BlendMode::Screen),
+            }
+            let px = dst.into_vec();
+            return Ok(px.iter().position(|p| { let a = p >> 24; ((p >> 16) & 0xff) > a || ((p >> 8) & 0xff) > a || (p & 0xff) > a }).map(|i| Violation::new("blend_surface/channel-exceeds-alpha", case.to_string(), format!("pixel {} = {:#010x}", i, px[i]))));
+        }
         if case.starts_with("conv ") {
             let m = kv(case);
             let (a, r, g, b) = (kv_i(&m, "a")? as u8, kv_i(&m, "r")? as u8, kv_i(&m, "g")? as u8, kv_i(&m, "b")? as u8);
